@@ -7,6 +7,9 @@
 (*    "b":{... the same for the mirror image of a.scn ...}                                        *)
 (*    optionally "a2","b2": a second read of the same cut (CutSite!Companion) in both             *)
 (*    orientations and "eq_a","eq_b" in {"true","false","raised"}: real `frag == frag2`}          *)
+(*    optionally "passes":2 (the fragments were constructed twice over the same read objects,     *)
+(*    same options: re-tagging must give the same, still correct outcome - judged as usual) and   *)
+(*    "prepass":"other_options" (see JudgeOrNote).                                                *)
 (* Nothing computed by the driver is trusted: TLC checks that a.scn is a well-formed cut, that    *)
 (* b.scn is its mirror image, and that the alignment records handed to the code are the ones the  *)
 (* specification derives from the scenarios (clauses generator_mismatch_*: machinery, not code).  *)
@@ -54,6 +57,11 @@ RzNote(e) == LET x == IF e.a.out.has_ds /\ e.a.scn.proto = "nla" /\ e.a.scn.kind
              IN IF x = "" THEN TRUE ELSE Note(l, e.tid, x)
 
 TInit == l = 1
-TNext == l <= Len(Log) /\ Judge(l, Verdict(Log[l])) /\ RzNote(Log[l]) /\ l' = l + 1
+(* events with "prepass":"other_options" re-tag reads that an earlier pass with OTHER options had tagged: outside the    *)
+(* quantifier (fresh simulated fragments); what the property's clauses would say is reported as a NOTE, never a reject *)
+JudgeOrNote(e) == IF Has(e, "prepass") /\ e.prepass = "other_options"
+                  THEN (IF Verdict(e) = "ok" THEN TRUE ELSE Note(l, e.tid, "retag_other_options_" \o Verdict(e)))
+                  ELSE Judge(l, Verdict(e))
+TNext == l <= Len(Log) /\ JudgeOrNote(Log[l]) /\ RzNote(Log[l]) /\ l' = l + 1
 TAccepted == TLCGet("stats").diameter - 1 = Len(Log)
 =====================================================================================================
